@@ -3,6 +3,7 @@ import PokerVerif.Drv.TBDrv
 import PokerVerif.Drv.OGMDrv
 import PokerVerif.Drv.HDDrv
 import PokerVerif.Drv.ACDrv
+import PokerVerif.Drv.MGDrv
 /-! Correspondence driver: reads a trace on stdin, replays it through the models, prints verdict lines. -/
 open Drv
 
@@ -13,6 +14,7 @@ structure DrvState where
   ogm : OGMDrv := {}
   hd : HDDrv := {}
   ac : ACDrv := {}
+  mg : MGDrv := {}
   ccClasses : Counter := {}
   ccCnt : Counter := {}
   bad : Nat := 0
@@ -57,6 +59,10 @@ partial def loop (h : IO.FS.Stream) (out : IO.FS.Stream) (s : DrvState) : IO Drv
                         ccCnt := (s.ccCnt.bump "action-bursts").bump "actions-accepted" acc }
   | "cc" :: "sm" :: _ => loop h out { s with lineNo := n, ccCnt := s.ccCnt.bump "sm-bursts" }
   | "cc" :: _ => loop h out { s with lineNo := n }
+  | "mg" :: rest =>
+    let (o', outs) := mgLine s.mg n rest
+    for o in outs do out.putStrLn o
+    loop h out { s with lineNo := n, mg := o' }
   | "ac" :: rest =>
     let (o', outs) := acLine s.ac n rest
     for o in outs do out.putStrLn o
@@ -74,6 +80,7 @@ def main : IO Unit := do
   for l in s.ogm.summary do stdout.putStrLn l
   for l in s.hd.summary do stdout.putStrLn l
   for l in s.ac.summary do stdout.putStrLn l
+  for l in s.mg.summary do stdout.putStrLn l
   stdout.putStrLn s!"SUMMARY cc {s.ccCnt.render}"
   stdout.putStrLn s!"CLASSES cc {s.ccClasses.render}"
   stdout.putStrLn s!"DONE lines={s.lineNo}"
